@@ -1034,6 +1034,17 @@ def seq_len_poly(ctx, t):
     ty = sy.type_of(t0)
     if ty is not None and ty.get("k") == "array" and ty.get("n") is not None:
         return Poly.const(ty["n"])
+    if t0[0] == "field" and t0[2] == 0 and unmut(t0[1])[0] == "downcast" and unmut(t0[1])[2] == "Some":
+        # an element yielded by `chunks_exact(n)` has exactly n elements
+        nx = unmut(unmut(t0[1])[1])
+        if nx[0] == "call" and short(nx[1]) == "Iterator::next" and len(nx[2]) == 1:
+            it = unmut(nx[2][0])
+            while it[0] == "call" and short(it[1]) == "IntoIterator::into_iter" and len(it[2]) == 1:
+                it = unmut(it[2][0])
+            if it[0] == "call" and short(it[1]) == "<impl [T]>::chunks_exact" and len(it[2]) == 2:
+                k = sy.poly(it[2][1])
+                if k is not None:
+                    return k
     if t0[0] == "call" and short(t0[1]).endswith("::concat") and len(t0[2]) == 1:
         arr = unmut(t0[2][0])
         while arr[0] == "cast":
